@@ -83,8 +83,7 @@ theorem rmData_sub (s : State) (set : String) (d : Ref) (strict : Bool) (hi : In
   · exact Sub.refl s
   · split
     · exact Sub.refl s
-    · simp only []
-      split
+    · split
       · exact Sub.refl s
       · split
         · rename_i s1 h1; exact rmDataH_sub s s1 _ _ strict hi h1
